@@ -68,11 +68,12 @@ Print Assumptions safe_prog_preserves_old_objects.
 (* ... and the bodies of the verb front ends (alias, select, drop, rename, mutate, filter, arrange,
    group_by, ungroup, summarize, slice_head, join and its four variants, union), of their nested
    helpers, of preprocess_arg, of check_subquery (the rebuilding of the tree above an alias) and of the
-   modify_ast / verb wrappers (pipe/verbs.py, pipe/pipeable.py), of every map_subtree and of every
+   modify_ast / verb wrappers (pipe/verbs.py, pipe/pipeable.py), of every map_subtree, of every
    receiver-writing method map_children / map_col_roots / map_col_nodes (tree/verbs.py,
    tree/col_expr.py; run on a shallow copy of the receiver, so that the theorem says that nothing but
-   the receiver is written), re-read from /repo's source on every run (generated/VerbEffects.v),
-   pass it *)
+   the receiver is written) and of every _clone / clone (the tree nodes and the backends' source
+   tables: what export and build_query hand to a backend), re-read from /repo's source on every run
+   (generated/VerbEffects.v), pass it *)
 Lemma generated_progs_are_safe : forallb (fun np => safe_prog (snd np)) verb_progs = true.
 Proof. vm_compute. reflexivity. Qed.
 
@@ -111,5 +112,5 @@ Example program_check_is_not_vacuous :
   /\ safe_prog (PLoop (pseq [PStmt (SLetCopies 1); PStmt (SAppend 1 RNew);
                              PLoop (PStmt (SSetElem 1 2 RAny)); PStmt (SMutElem 1); PIf PBreak PSkip])) = true
   /\ safe_prog (pseq [PStmt (SLetCopies 1); PStmt (SAppend 1 RAny)]) = false    (* an existing object joins the list *)
-  /\ (40 <= List.length verb_progs)%nat.
+  /\ (50 <= List.length verb_progs)%nat.
 Proof. vm_compute. repeat split; repeat constructor. Qed.
